@@ -67,6 +67,17 @@ def request(p, ops, par, vec, op, target, tick=None, dep=False):
     before = observe(p, ops)
     if before[0] != list(vec):
         raise Violation("C02.walk.state", {"got": before[0], "want": list(vec)}, tick)
+    if target in ("!arrive", "!finish"):
+        # the simulator's own bookkeeping calls on the same object (write-once ticks): they change no operator state
+        # and nothing about which requests are legal afterwards
+        rs_ = p.runtime_status()
+        try:
+            (rs_.record_arrival if target == "!arrive" else rs_.record_finish)(tick or 0)
+        except AssertionError:
+            pass                # recorded before: write-once
+        if observe(p, ops) != before:
+            raise Violation("C02.walk.bookkeeping_changed_state", {"par": par, "state": list(vec), "call": target}, tick)
+        return tuple(vec)
     if isinstance(target, str) and target.startswith("?"):
         target = target[1:]
         want = model_legal(vec, par, op, target)
@@ -126,8 +137,11 @@ def run_walk(scn):
     refused = 0
     try:
         for k, (op, target) in enumerate(scn["requests"]):
-            legal = model_legal(vec, par, op, target) if not str(target).startswith("=") else False
-            if str(target).startswith("?"):
+            legal = model_legal(vec, par, op, target) if not str(target).startswith(("=", "!")) else False
+            if str(target).startswith("!"):
+                legal = True
+                out["probes"]["bookkeeping_call"] = out["probes"].get("bookkeeping_call", 0) + 1
+            elif str(target).startswith("?"):
                 legal = True
                 out["probes"]["polled"] = out["probes"].get("polled", 0) + 1
             elif target == "running" and not legal and target in TABLE[vec[op]]:
@@ -167,6 +181,10 @@ def gen_walk(r):
             continue
         if r.random() < 0.05:
             reqs.append([op, "?" + target])       # only asked, as a polling scheduler does
+            continue
+        if r.random() < 0.03 or (all(v == "completed" for v in vec) and r.random() < 0.3):
+            # the main loop records arrival and finish on the same status object; requests keep coming afterwards
+            reqs.append([op, "!finish" if all(v == "completed" for v in vec) else "!arrive"])
             continue
         if model_legal(vec, par, op, target):
             vec[op] = target
